@@ -26,6 +26,14 @@ CLAIMED = {
          "The real resolve_tx is run on fee-dependent templates over a protocol-parameter grid with UTxO amounts placed around CBOR width boundaries of the change and the fee; decoded body fee = reported fee = a*len+b+margin, the change and the input threshold must have used that same fee. The round log classifies a failure (cut at the round limit vs returned early). Held except for the listed known finding (oscillation cut at the round limit).",
          "Err results are out of scope; single-UTxO stores",
          "DESIGN.md section 3 C05"),
+ "C06": ("exploration", "runtime monitor: independent structural walk over the serialised IR (ciborium Value of the Serialize derive) compared with find_params / find_queries before and after each application stage; missing-argument probe through resolve_tx",
+         "For lowered generated programs, the examples and random IR trees with a parameter / query / fees node in every expression position, the names found by the walk must equal the reported ones; after apply_args / apply_fees / apply_inputs of everything reported no unresolved node of that kind may remain, after compiler ops + reduce none at all and is_constant must agree; resolve_tx with one reported argument removed must return MissingTxArg naming it. The evidence lists the (kind, position) pairs reached. Held on every IR.",
+         "the walk sees exactly what Serialize sees; nodes under an applied Param::Set and queries nested in a query's own field are outside the language and not generated",
+         "DESIGN.md section 3 C06"),
+ "C07": ("exploration", "runtime monitor: exhaustive schedule enumeration per template (24 stage orders x 32 reduce placements) with canonical-IR and decoded-transaction equality oracle and idempotence check after every reduce",
+         "For each generated template and world all admissible schedules of {args, inputs, fees, compiler ops} with any subset of interleaved reductions are executed on the real Apply / Node / reduce API; the canonical fully reduced IR and the independently decoded compiled transaction must be the same for all of them, and reduce must be idempotent wherever it is applied. Schedules are exhaustive per template; templates are sampled. Held = one outcome per template.",
+         "admissibility is defined on stage dependencies known from the generator (compiler ops after args when a built-in reads a parameter); a fresh compiler per schedule",
+         "DESIGN.md section 3 C07"),
  "C08": ("exploration", "runtime monitor: redeemer-attachment oracle (ledger-order ranks computed by the reference semantics) vs the independently decoded witness set",
          "Generated templates with script inputs (single and multi-UTxO), mints/burns on shared and distinct policies and withdrawals, with random transaction ids / policy ids / credentials so that every relative order occurs; the decoded map (purpose tag, index) -> data must equal the map built from the source. Lost, spurious, misindexed and wrong-data redeemers have distinct signatures. Held = maps equal on every generated case.",
          "ledger ordering of inputs (txid bytes, index), mint policies and reward accounts as implemented in the reference semantics; ambiguous mint blocks (several policies / cancelled policy with a redeemer) are counted, not judged",
